@@ -183,7 +183,9 @@ impl C29 {
         // corpus programs that compile and run on their own, shortest first
         let c = tu::corpus();
         let n = tier.pick(12, 60);
-        (0..c.len()).filter(|i| c[*i].text.len() >= 20).take(n).collect()
+        // programs declaring their own host functions are skipped: the harness finds host declarations
+        // with a line-based scan (a comment in front of `#host` would change the harness, not the program)
+        (0..c.len()).filter(|i| c[*i].text.len() >= 20 && !c[*i].text.contains("#host")).take(n).collect()
     }
     fn n_gen_units(tier: Tier) -> usize {
         Self::gen_programs(tier).len().div_ceil(PROGS_PER_UNIT)
